@@ -88,12 +88,12 @@ func goSourceFromGrammar(pkg string, g *lr1.Grammar, withBounds bool) string {
 				params = append(params, fmt.Sprintf("a%d %s", q, ty))
 				args = append(args, fmt.Sprintf("rv(a%d)", q))
 			}
-			fmt.Fprintf(&ms, "func (p *P) on_%s__s%d(%s) Node { return p.mk(%d, []string{%s}) }\n",
+			fmt.Fprintf(&ms, "func (p *parserT) on_%s__s%d(%s) Node { return p.mk(%d, []string{%s}) }\n",
 				r.Name, len(seen)-1, strings.Join(params, ", "), r.Index, strings.Join(args, ", "))
 		}
 	}
 	if withBounds {
-		ms.WriteString("func (p *P) _onBounds(r any, b, e Token) { p.log = append(p.log, fmt.Sprintf(\"B %s %d %d\", rv(r), b.N-1, e.N-1)) }\n")
+		ms.WriteString("func (p *parserT) _onBounds(r any, b, e Token) { p.log = append(p.log, fmt.Sprintf(\"B %s %d %d\", rv(r), b.N-1, e.N-1)) }\n")
 	}
 	var tt strings.Builder
 	tt.WriteString("var TokTypes = []int{EOF, ERROR}\n")
